@@ -16,7 +16,9 @@ EXHAUSTIVE = {"quick": False, "thorough": False}
 MODEL_OPS = {"program", "eqchar", "observe_m", "strequal", "split", "join"}
 ASSUMPTIONS = ["npstructures RaggedArray indexing/assignment and NumPy indexing are specified (Base/PySlice + Model/C07.apply), not verified; "
                "every use is exercised against the Python list-of-strings oracle",
-               "decode tables of the alphabet encodings are injective (C06.gen_tables_ok)"]
+               "decode tables of the alphabet encodings are injective (C06.gen_tables_ok)",
+               "StringArray wraps NumPy fixed-width byte strings, which cannot hold a trailing NUL: NUL is excluded from the StringArray cases only "
+               "(encoded arrays are exercised with NUL and DEL, also at the end of a row)"]
 MANIFEST = {
     "text": "Lean 4: a model of every supported structural operation on encoded (ragged) arrays over Python/NumPy index semantics "
             "(normIdx, CPython slice adjustment, masks, fancy lists, scatter assignment with broadcast) and theorem C07.natural / C07.programs: "
@@ -33,7 +35,8 @@ MANIFEST = {
 }
 
 ENCS = ["BaseEncoding", "ACGTEncoding", "ACGTnEncoding", "AminoAcidEncoding"]
-ALPH = {"BaseEncoding": "ACGTNacgtn,;|xyz01", "ACGTEncoding": "ACGT", "ACGTnEncoding": "ACGTN", "AminoAcidEncoding": "ACDEFGHIKLMNPQRSTVWY*"}
+ALPH = {"BaseEncoding": "ACGTNacgtn,;|xyz01\x00\x7f",      # incl. NUL and DEL: text is bytes, not C strings (a row may END with NUL)
+         "ACGTEncoding": "ACGT", "ACGTnEncoding": "ACGTN", "AminoAcidEncoding": "ACDEFGHIKLMNPQRSTVWY*"}
 
 
 def _enc(name):
@@ -346,6 +349,9 @@ def cases(tier, rng):
     for _ in range(3000 if big else 500):
         enc = rng.choice(ENCS)
         codes = list(range(len(ALPH[enc]))) if enc != "BaseEncoding" else [ord(ch) for ch in ALPH[enc]]
+        # StringArray wraps NumPy fixed-width byte strings ('S' dtype), which cannot hold a trailing NUL (NumPy strips it):
+        # NUL is kept out of the StringArray cases (it stays in every EncodedArray / EncodedRaggedArray case)
+        codes = [k for k in codes if not (enc == "BaseEncoding" and k == 0)]
         n = rng.choice([1, 1, 2, 3, 4, 6])
         rows = [[rng.choice(codes) for _ in range(rng.choice([0, 1, 2, 3, 5, 8]))] for _ in range(n)]
         if rng.random() < 0.1:
